@@ -401,6 +401,9 @@ func accessPath(v ssa.Value) string {
 	v = strip(v)
 	switch x := v.(type) {
 	case *ssa.Parameter:
+		if b, ok := paramBind[x]; ok {
+			return accessPath(b)
+		}
 		return "param:" + x.Name()
 	case *ssa.FreeVar:
 		return "free:" + x.Name()
